@@ -384,7 +384,8 @@ def gen_hasref_decok():
     em = Emitter('gen_hasref_decok', Contracts('generic.toml'))
     em.variant = 'dec'
     parts = [em.render(f, DEC_SUBST) for f in ('shim_m0.vrs', 'traits_core.vrs', 'hasref_specs.vrs', 'trait_hasref.vrs',
-                                                 'dec_ok_specs.vrs', 'm1_dec.vrs', 'lemmas_c18_dec.vrs')]
+                                                 'dec_ok_specs.vrs', 'derived_specs.vrs', 'm1_dec.vrs', 'lemmas_c18_dec.vrs',
+                                                 'lemmas_c18_dec_derived.vrs')]
     parts.insert(1, em.lits.decls())
     text = mark_lemmas(wrap('\n\n'.join(parts)), em.unit)
     return text, em
